@@ -30,7 +30,7 @@ from fractions import Fraction as F
 import core
 from core import cz, cq, clist, ctuple, cbool
 
-EXPECT_MIN = 33
+EXPECT_MIN = 37
 PAIRS = [(480, 500000), (96, 600000), (1000, 333333), (1, 10 ** 6), (4, 250000), (384, 250000), (960, 1000000)]
 KEYNAMES = ["Cb", "Gb", "Db", "Ab", "Eb", "Bb", "F", "C", "G", "D", "A", "E", "B", "F#", "C#",
             "Abm", "Ebm", "Bbm", "Fm", "Cm", "Gm", "Dm", "Am", "Em", "Bm", "F#m", "C#m", "G#m", "D#m", "A#m"]
@@ -403,8 +403,9 @@ def build_parts(case):
     import numpy as np
 
     num = case.get("num", "py")
-    FT = {"py": lambda v: v, "f4": np.float32, "f8": np.float64}[num]
-    IT = {"py": lambda v: v, "f4": np.int32, "f8": np.int64}[num]
+    # "int" / "i4" / "i8": whole seconds held in Python / numpy integers
+    FT = {"py": lambda v: v, "f4": np.float32, "f8": np.float64, "int": int, "i4": lambda v: np.int32(int(v)), "i8": lambda v: np.int64(int(v))}[num]
+    IT = {"py": lambda v: v, "f4": np.int32, "f8": np.int64, "int": lambda v: v, "i4": np.int32, "i8": np.int64}[num]
 
     def conv(d):
         return {k: (FT(v) if k in ("time", "note_on", "note_off") else IT(v) if isinstance(v, int) and not isinstance(v, bool) else v)
@@ -491,22 +492,25 @@ def c_item(track, t, msg):
     return "(mkPI %s %s %s)" % (cz(track), core.cfloat_q(t), msg)
 
 
+def c_ppart(pp, intern):
+    """a PerformedPart as it stands (the fields the exporter reads) -> Coq ppart term"""
+    import partitura.utils as U
+
+    metas = [c_item(m.get("track", 0), m["time"], "(Meta %s)" % cz(intern(meta_key(m)))) for m in pp.meta_other]
+    keys = [c_item(k.get("track", 0), k["time"], "(KeySig %s)" % cz(KEYNAMES.index(
+        U.fifths_mode_to_key_name(k.get("fifths", 0), k.get("mode", None))))) for k in pp.key_signatures]
+    tsigs = [c_item(t.get("track", 0), t["time"], "(TimeSig %s %s)" % (cz(t.get("beats", 4)), cz(t.get("beat_type", 4)))) for t in pp.time_signatures]
+    ctrls = [c_item(c.get("track", 0), c["time"], "(CC %s %s %s)" % (cz(c.get("channel", 1)), cz(c["number"]), cz(c["value"]))) for c in pp.controls]
+    notes = ["(mkPN %s %s %s %s %s %s)" % (cz(n.get("track", 0)), cz(n.get("channel", 1)), cz(n["midi_pitch"]), cz(n["velocity"]),
+                                           core.cfloat_q(n["note_on"]), core.cfloat_q(n["note_off"])) for n in pp.notes]
+    progs = [c_item(p.get("track", 0), p["time"], "(PC %s %s)" % (cz(p.get("channel", 1)), cz(int(p["program"])))) for p in pp.programs]
+    return "(mkPP %s %s %s %s %s %s)" % (clist(metas), clist(keys), clist(tsigs), clist(ctrls), clist(notes), clist(progs))
+
+
 def term_save(case, pps, mf, intern):
     """the exporter's input as it stands at save time (track numbers possibly renumbered by
     Performance) and the messages of the returned MidiFile"""
-    import partitura.utils as U
-
-    parts = []
-    for pp in pps:
-        metas = [c_item(m.get("track", 0), m["time"], "(Meta %s)" % cz(intern(meta_key(m)))) for m in pp.meta_other]
-        keys = [c_item(k.get("track", 0), k["time"], "(KeySig %s)" % cz(KEYNAMES.index(
-            U.fifths_mode_to_key_name(k.get("fifths", 0), k.get("mode", None))))) for k in pp.key_signatures]
-        tsigs = [c_item(t.get("track", 0), t["time"], "(TimeSig %s %s)" % (cz(t.get("beats", 4)), cz(t.get("beat_type", 4)))) for t in pp.time_signatures]
-        ctrls = [c_item(c.get("track", 0), c["time"], "(CC %s %s %s)" % (cz(c.get("channel", 1)), cz(c["number"]), cz(c["value"]))) for c in pp.controls]
-        notes = ["(mkPN %s %s %s %s %s %s)" % (cz(n.get("track", 0)), cz(n.get("channel", 1)), cz(n["midi_pitch"]), cz(n["velocity"]),
-                                               core.cfloat_q(n["note_on"]), core.cfloat_q(n["note_off"])) for n in pp.notes]
-        progs = [c_item(p.get("track", 0), p["time"], "(PC %s %s)" % (cz(p.get("channel", 1)), cz(int(p["program"])))) for p in pp.programs]
-        parts.append("(mkPP %s %s %s %s %s %s)" % (clist(metas), clist(keys), clist(tsigs), clist(ctrls), clist(notes), clist(progs)))
+    parts = [c_ppart(pp, intern) for pp in pps]
     return ctuple([cz(case["ppq"]), cz(case["mpq"]), cbool(case["ms"]), clist(parts), clist([c_track(t, intern) for t in mf.tracks])])
 
 
@@ -1256,6 +1260,919 @@ def run_converters(rng, n):
 
 
 # ----------------------------------------------------------------------------
+# (h) histories: state carried between calls.  A world of live objects -- performed parts, the caller's list
+# of them, a Performance made from that list, MIDI files (a mido object and a file on disk), the results
+# returned so far -- is driven through a sequence of calls and edits; next to it the harness keeps the
+# abstract state (plain data) the edits add up to.  Every observation is judged against the CURRENT
+# abstract state only: by the property's words (the one-shot oracles) and against the same call on
+# freshly built objects holding the current state.
+
+
+H_NUMS = ["py"] * 6 + ["f4", "f8", "int", "i4", "i8"]
+H_PART_KEYS = ("notes", "ctrls", "progs", "keys", "tsigs", "metas")
+
+
+def h_q(v, num):
+    """the time v as a scalar of kind `num` holds it"""
+    import numpy as np
+
+    if num == "f4":
+        return float(np.float32(v))
+    if num in ("int", "i4", "i8"):
+        return float(int(v))
+    return float(v)
+
+
+class HGen:
+    """state-independent generator of histories: indices are reduced modulo what exists when the step runs"""
+
+    def __init__(self, rng):
+        self.rng = rng
+        self.pitch = rng.randint(0, 127)
+
+    def fresh_pitch(self):
+        self.pitch = (self.pitch + 1) % 128  # every note of a history gets another pitch: no two notes overlap
+        return self.pitch
+
+    def time(self, num):
+        rng = self.rng
+        if num in ("int", "i4", "i8"):
+            return float(rng.randint(0, 20))
+        return h_q(rng.randint(0, 160) / 16.0, num)
+
+    def note(self, num, pool, chans):
+        rng = self.rng
+        on = self.time(num)
+        off = h_q(on + rng.choice([0, 0, 1, 2, rng.randint(0, 48) / 16.0]), num)
+        return dict(midi_pitch=self.fresh_pitch(), note_on=on, note_off=max(on, off), velocity=rng.randint(1, 127), channel=rng.choice(chans), track=rng.choice(pool))
+
+    def ctrl(self, num, pool, chans):
+        rng = self.rng
+        return dict(number=rng.choice([64, 64, 67, rng.randint(0, 127)]), value=rng.randint(0, 127), time=self.time(num), channel=rng.choice(chans), track=rng.choice(pool))
+
+    def prog(self, num, pool, chans):
+        return dict(program=self.rng.randint(0, 127), time=self.time(num), channel=self.rng.choice(chans), track=self.rng.choice(pool))
+
+    def part(self):
+        rng = self.rng
+        num = rng.choice(H_NUMS)
+        pool = rng.choice([[0], [0], [0, 1], [1], [0, 2], [3, 5]])
+        chans = rng.sample(range(16), rng.choice([1, 2]))
+        notes = [self.note(num, pool, chans) for _ in range(rng.choice([1, 1, 2, 3, 4]))]
+        ntr = sorted({n["track"] for n in notes})
+        part = dict(num=num, notes=notes,
+                    ctrls=[self.ctrl(num, pool, chans) for _ in range(rng.choice([0, 0, 1, 2, 3]))],
+                    progs=[self.prog(num, pool, chans) for _ in range(rng.choice([0, 0, 0, 1]))],
+                    keys=[dict(time=self.time(num), fifths=rng.randint(-7, 7), mode=rng.choice(["major", "minor"]), track=rng.choice(ntr)) for _ in range(rng.choice([0, 0, 1]))],
+                    tsigs=[dict(time=self.time(num), beats=rng.randint(1, 12), beat_type=rng.choice([2, 4, 8]), track=rng.choice(ntr)) for _ in range(rng.choice([0, 0, 1]))],
+                    metas=[dict(type="text", text="m%d" % rng.randint(0, 5), time=self.time(num), track=rng.choice(ntr)) for _ in range(rng.choice([0, 0, 1]))])
+        if rng.random() < 0.3:
+            part["ppq"], part["mpq"] = rng.choice(PAIRS)
+        h_fix_sig_tracks(part)
+        return part
+
+    def res(self):
+        rng = self.rng
+        r = rng.random()
+        if r < 0.5:
+            return rng.choice(PAIRS)
+        if r < 0.8:  # the same ppq with another mpq and the other way round: what a table keyed by one of them confuses
+            return rng.choice([(480, 250000), (480, 600000), (480, 1000000), (96, 500000), (960, 500000), (384, 500000), (1000, 500000)])
+        return (rng.randint(1, 2000), rng.randint(1000, 2 * 10 ** 6))
+
+    def save(self):
+        rng = self.rng
+        ppq, mpq = self.res()
+        return dict(op="save", via=rng.choice(["perf", "perf", "lst", "lst", "part"]), k=rng.randint(0, 5), ppq=ppq, mpq=mpq, ms=rng.random() < 0.25,
+                    out=rng.choice(["none"] * 6 + ["path", "buf"]), fresh_first=rng.random() < 0.5)
+
+    def edit(self):
+        rng = self.rng
+        k, i = rng.randint(0, 5), rng.randint(0, 11)
+        what = rng.choice(["shift", "shift", "times", "velocity", "channel", "track", "pitch", "add_note", "del_note", "ctrl_value", "ctrl_time", "ctrl_track",
+                           "add_ctrl", "del_ctrl", "rebind_ctrls", "add_prog", "clear_progs", "res", "ticks"])
+        op = dict(op="edit", k=k, i=i, what=what)
+        if what == "shift":
+            op["d"] = rng.choice([1.0, 0.5, 2.25, 10.0, 3.0])
+        elif what in ("times", "ctrl_time"):
+            op["on"] = rng.randint(0, 160) / 16.0
+            op["len"] = rng.choice([0, 0.5, 1, 2.0625])
+        elif what in ("velocity", "ctrl_value"):
+            op["v"] = rng.randint(1, 127)
+        elif what == "channel":
+            op["v"] = rng.randint(0, 15)
+        elif what in ("track", "ctrl_track"):
+            op["v"] = rng.choice([0, 1, 2, 4])
+        elif what == "pitch":
+            op["v"] = self.fresh_pitch()
+        elif what == "add_note":
+            op["note"] = self.note("py", [rng.choice([0, 1, 2])], [rng.randint(0, 15)])
+        elif what == "add_ctrl":
+            op["ctrl"] = self.ctrl("py", [rng.choice([0, 1, 2])], [rng.randint(0, 15)])
+        elif what == "add_prog":
+            op["prog"] = self.prog("py", [rng.choice([0, 1, 2])], [rng.randint(0, 15)])
+        elif what == "clear_progs":
+            op["rebind"] = rng.random() < 0.5
+        elif what == "res":
+            op["ppq"], op["mpq"] = self.res()
+        elif what == "ticks":
+            op["off"] = rng.choice([1, 7, 480])
+        return op
+
+    def export_op(self):
+        rng = self.rng
+        r = rng.random()
+        if r < 0.34:
+            return self.save()
+        if r < 0.62:
+            return self.edit()
+        if r < 0.70:
+            return dict(op="wrap", single=rng.random() < 0.5)
+        if r < 0.75:
+            return dict(op="sanitize")
+        if r < 0.82:
+            return dict(op="setitem", i=rng.randint(0, 3), part=self.part())
+        if r < 0.90:
+            return dict(op="list_edit", how=rng.choice(["append", "replace", "pop"]), i=rng.randint(0, 3), part=self.part())
+        if r < 0.96:
+            return dict(op="scribble_mf")
+        return dict(op="note_array", k=rng.randint(0, 5))
+
+    def conv_op(self):
+        rng = self.rng
+        ppq, mpq = self.res()
+        f = rng.choice(["s2t", "s2t", "t2s", "t2s", "adjust"])
+        if f == "s2t":
+            kind = rng.choice(["float", "f4", "f8", "int", "i4", "array8", "array4", "arrayi", "zero_d", "zero_di", "one", "empty"])
+            t = rng.randint(0, 30 * 128) / 128.0
+            if kind in ("int", "i4", "arrayi", "zero_di"):
+                t = float(int(t))
+            return dict(op="conv", f=f, kind=kind, t=t, ppq=ppq, mpq=mpq)
+        if f == "t2s":
+            return dict(op="conv", f=f, kind=rng.choice(["int", "i4", "i8", "float", "array4", "array8", "zero_d", "one", "empty"]),
+                        k=rng.choice([0, 1, rng.randint(0, 10 ** 4), rng.randint(0, 10 ** 7)]), ppq=ppq, mpq=mpq)
+        tc = [(0, rng.choice(TEMPI))]
+        for _ in range(rng.choice([0, 1, 2, 4])):
+            tc.append((tc[-1][0] + rng.choice([0, 1, 60, 480, 5000]), rng.choice(TEMPI)))
+        return dict(op="conv", f=f, tc=tc, ticks=[rng.choice([0, tc[-1][0], rng.randint(0, 20000)]) for _ in range(2)], ppq=ppq)
+
+    def import_op(self):
+        rng = self.rng
+        r = rng.random()
+        fid = rng.choice(["A", "A", "B"])
+        if r < 0.45:
+            return dict(op="load", fid=fid, bpm=rng.choice([120] * 3 + BPMS), via=rng.choice(["obj", "obj", "path", "lp"]), fresh_first=rng.random() < 0.5)
+        if r < 0.70:
+            how = rng.choice(["tempo", "tempo", "ppq", "drop", "replace"])
+            op = dict(op="file_edit", fid=fid, how=how, i=rng.randint(0, 3), j=rng.randint(0, 30))
+            if how == "tempo":
+                op["v"] = rng.choice(TEMPI)
+            elif how == "ppq":
+                op["v"] = rng.choice([480, 96, 1000, 384, 24, 960])
+            elif how == "replace":
+                op["spec"] = gen_midi(rng)
+            return op
+        if r < 0.82:
+            return dict(op="result_edit")
+        return self.conv_op()
+
+    def history(self):
+        rng = self.rng
+        flavour = rng.choice(["export", "export", "import"])
+        init = dict(parts=[self.part() for _ in range(rng.choice([1, 2, 2, 3]))], wrap=rng.random() < 0.6, files=dict(A=gen_midi(rng), B=gen_midi(rng)))
+        if flavour == "export" and rng.random() < 0.3:
+            init["from_midi"] = dict(spec=gen_midi(rng), via=rng.choice(["midi", "lp"]))
+        ops = []
+        for _ in range(rng.choice([4, 6, 8, 12])):
+            r = rng.random()
+            if flavour == "export":
+                ops.append(self.export_op() if r < 0.88 else self.import_op())
+            else:
+                ops.append(self.import_op() if r < 0.85 else self.export_op())
+        if flavour == "export":
+            ops.append(self.save())
+        else:
+            ops.append(dict(op="load", fid="A", bpm=rng.choice([120] + BPMS), via="obj", fresh_first=False))
+        return dict(flavour=flavour, init=init, ops=ops)
+
+
+def h_fix_sig_tracks(part):
+    """signatures and other meta events sit on the track of a note of their part (a file track holding nothing else
+    is not read back as a part): the j-th one on the track of the (j mod n)-th note.  -> changed?"""
+    changed = False
+    for name in ("keys", "tsigs", "metas"):
+        for j, x in enumerate(part[name]):
+            tr = part["notes"][j % len(part["notes"])]["track"]
+            if x.get("track") != tr:
+                x["track"] = tr
+                changed = True
+    return changed
+
+
+def h_build(part):
+    return build_parts(dict(parts=[part], kind="list", num=part.get("num", "py")))[1][0]
+
+
+def h_view_live(pp):
+    """the public fields of a performed part that C06 names, as plain data"""
+    return dict(
+        notes=[(int(n["midi_pitch"]), float(n["note_on"]), float(n["note_off"]), int(n["velocity"]), int(n["channel"]), int(n["track"])) for n in pp.notes],
+        ctrls=[(int(c["number"]), int(c["value"]), float(c["time"]), int(c["channel"]), int(c["track"])) for c in pp.controls],
+        progs=[(int(c["program"]), float(c["time"]), int(c["channel"]), int(c["track"])) for c in pp.programs],
+        keys=[(float(c["time"]), int(c["fifths"]), str(c["mode"]), int(c["track"])) for c in pp.key_signatures],
+        tsigs=[(float(c["time"]), int(c["beats"]), int(c["beat_type"]), int(c["track"])) for c in pp.time_signatures],
+        metas=[(meta_key(m), float(m["time"]), int(m["track"])) for m in pp.meta_other if m.get("type") != "end_of_track"])
+
+
+def h_view_abs(part):
+    return dict(
+        notes=[(n["midi_pitch"], float(n["note_on"]), float(n["note_off"]), n["velocity"], n["channel"], n["track"]) for n in part["notes"]],
+        ctrls=[(c["number"], c["value"], float(c["time"]), c["channel"], c["track"]) for c in part["ctrls"]],
+        progs=[(int(c["program"]), float(c["time"]), c["channel"], c["track"]) for c in part["progs"]],
+        keys=[(float(c["time"]), c["fifths"], str(c["mode"]), c["track"]) for c in part["keys"]],
+        tsigs=[(float(c["time"]), c["beats"], c["beat_type"], c["track"]) for c in part["tsigs"]],
+        metas=[(meta_key(m), float(m["time"]), m["track"]) for m in part["metas"]])
+
+
+def h_canon_mf(mf):
+    """the messages of a MidiFile: per track (absolute tick, message) in file order"""
+    out = []
+    for tr in mf.tracks:
+        t, evs = 0, []
+        for m in tr:
+            t += m.time
+            evs.append((t, str(m.copy(time=0))))
+        out.append(evs)
+    return dict(ppq=mf.ticks_per_beat, type=mf.type, tracks=out)
+
+
+def h_diff_mf(a, b):
+    if (a["ppq"], a["type"], len(a["tracks"])) != (b["ppq"], b["type"], len(b["tracks"])):
+        return "ticks_per_beat / type / number of tracks %s against %s" % ((a["ppq"], a["type"], len(a["tracks"])), (b["ppq"], b["type"], len(b["tracks"])))
+    for i, (x, y) in enumerate(zip(a["tracks"], b["tracks"])):
+        if x != y:
+            return "track %d: after the history only %s, on the fresh copy only %s" % (i, [e for e in x if e not in y][:3], [e for e in y if e not in x][:3])
+    return None
+
+
+def h_conv_check(op):
+    """one call of a conversion function: by the property's words; the argument is left alone; writing into the
+    result does not reach the argument or a later result"""
+    import numpy as np
+    from partitura.utils.music import seconds_to_midi_ticks, midi_ticks_to_seconds
+    from partitura.io.importmidi import adjust_time
+
+    ppq = op["ppq"]
+    if op["f"] == "adjust":
+        tc = [tuple(x) for x in op["tc"]]
+        arg = list(tc)
+        for tk in op["ticks"]:
+            o = float(adjust_time(tk, arg, ppq))
+            total = F(0)
+            for j, (t0, m) in enumerate(tc):
+                nxt = tc[j + 1][0] if j + 1 < len(tc) else None
+                if tk > t0:
+                    total += F((tk if nxt is None else min(tk, nxt)) - t0) * m / (10 ** 6 * ppq)
+            if abs(F(o) - total) > REL * max(1, total):
+                return ["adjust_time(%d, %s, %d) = %r; the integral of the tempo steps is %r" % (tk, tc, ppq, o, float(total))]
+            if arg != tc:
+                return ["adjust_time changed its tempo list: %s -> %s" % (tc, arg)]
+        return []
+    mpq = op["mpq"]
+    kind = op["kind"]
+    if op["f"] == "s2t":
+        t = op["t"]
+        mk = {"float": lambda: t, "f4": lambda: np.float32(t), "f8": lambda: np.float64(t), "int": lambda: int(t), "i4": lambda: np.int32(int(t)),
+              "array8": lambda: np.array([t, 0.0, t], dtype="f8"), "array4": lambda: np.array([t, 0.0], dtype="f4"), "arrayi": lambda: np.array([int(t), 0, 3]),
+              "zero_d": lambda: np.array(t), "zero_di": lambda: np.array(int(t)), "one": lambda: np.array([t]), "empty": lambda: np.array([], dtype=float)}[kind]
+        arg = mk()
+        vals = [float(x) for x in np.atleast_1d(np.asarray(arg, dtype=float))]
+        if not all(tick_exact(ppq, mpq, v)[1] for v in vals):
+            return []
+        out = []
+        for rep in range(2):
+            got = seconds_to_midi_ticks(arg, mpq=mpq, ppq=ppq)
+            g = [int(x) for x in np.atleast_1d(np.asarray(got))]
+            if len(g) != len(vals) or any(x not in tick_cands(ppq, mpq, v) for x, v in zip(g, vals)):
+                return ["seconds_to_midi_ticks(%r as %s, mpq=%d, ppq=%d) = %r (call %d); nearest ticks %s" % (vals, kind, mpq, ppq, g, rep + 1, [tick_cands(ppq, mpq, v) for v in vals])]
+            if np.asarray(got).dtype.kind not in "iu" and not isinstance(got, int):
+                return ["seconds_to_midi_ticks(%s) returned %r: not integer ticks" % (kind, got)]
+            out.append(g)
+            if isinstance(got, np.ndarray) and got.ndim > 0 and got.size and got.flags.writeable:
+                got[...] = -77  # write into the result
+            if [float(x) for x in np.atleast_1d(np.asarray(arg, dtype=float))] != vals:
+                return ["writing into the result of seconds_to_midi_ticks(%s) changed the argument: %r" % (kind, arg)]
+        return []
+    k = op["k"]
+    mk = {"int": lambda: k, "i4": lambda: np.int32(k), "i8": lambda: np.int64(k), "float": lambda: float(k), "array4": lambda: np.array([k, 0], dtype="i4"),
+          "array8": lambda: np.array([k, 0, 1], dtype="i8"), "zero_d": lambda: np.array(k), "one": lambda: np.array([k]), "empty": lambda: np.array([], dtype=int)}[kind]
+    arg = mk()
+    vals = [int(x) for x in np.atleast_1d(np.asarray(arg))]
+    for rep in range(2):
+        sec = midi_ticks_to_seconds(arg, mpq=mpq, ppq=ppq)
+        g = [float(x) for x in np.atleast_1d(np.asarray(sec, dtype=float))]
+        if len(g) != len(vals) or any(abs(F(x) - F(v) * mpq / (10 ** 6 * ppq)) > REL * max(1, F(v) * mpq / (10 ** 6 * ppq)) for x, v in zip(g, vals)):
+            return ["midi_ticks_to_seconds(%r as %s, mpq=%d, ppq=%d) = %r (call %d), expected %r" % (vals, kind, mpq, ppq, g, rep + 1, [float(F(v) * mpq / (10 ** 6 * ppq)) for v in vals])]
+        if isinstance(sec, np.ndarray) and sec.ndim > 0 and sec.size and sec.flags.writeable:
+            sec[...] = -7.5
+        if [int(x) for x in np.atleast_1d(np.asarray(arg))] != vals:
+            return ["writing into the result of midi_ticks_to_seconds(%s) changed the argument: %r" % (kind, arg)]
+    return []
+
+
+def h_run(case, workdir, coq=None):
+    """run one history -> (failures, info).  Stops at the first failing step.  `coq`: an Intern; when given, info["term"]
+    is the history as a Coq term (Model.C06_hist) together with the saved messages of the compared saves."""
+    import copy
+    import io
+    import mido
+    import numpy as np
+    import partitura
+    import partitura.performance as P
+    from partitura.io.exportmidi import save_performance_midi
+    from partitura.io.importmidi import load_performance_midi
+
+    st = dict(parts={}, lst=[], perf=None, files={})
+    live = dict(parts={}, L=[], perf=None, files={}, mf=None, res=None)
+    info = dict(saves=0, saves_abs=0, saves_after_edit=0, loads=0, loads_after_edit=0, convs=0, steps=0, hops=[], obs=[], nums=set())
+    edited = dict(export=False, files=set())
+    sent = {}  # pid -> json of the part as last sent to the Coq history
+
+    def new_part(part, pp=None):
+        pid = str(len(st["parts"]))
+        st["parts"][pid] = json.loads(json.dumps(part))
+        live["parts"][pid] = pp if pp is not None else h_build(part)
+        info["nums"].add(part.get("num", "py"))
+        return pid
+
+    def pids_in_views():
+        out = []
+        for p in st["lst"] + (st["perf"] or []):
+            if p not in out:
+                out.append(p)
+        return out
+
+    def coq_sync():
+        """the edits since the last call, as steps of the Coq state machine"""
+        if coq is None:
+            return
+        for pid in pids_in_views():
+            js = json.dumps(st["parts"][pid], sort_keys=True)
+            if sent.get(pid) != js:
+                sent[pid] = js
+                info["hops"].append("(HPut %d%%nat %s)" % (int(pid), c_ppart(h_build(st["parts"][pid]), coq)))
+        for name, cons in (("lst", "HList"), ("perf", "HPerf")):
+            ids = st[name] or []
+            if sent.get(name) != ids:
+                sent[name] = list(ids)
+                info["hops"].append("(%s %s)" % (cons, clist(["%d%%nat" % int(p) for p in ids])))
+
+    def check_state(label):
+        for pid in pids_in_views():
+            try:
+                a, b = h_view_live(live["parts"][pid]), h_view_abs(st["parts"][pid])
+            except Exception as e:
+                return ["%s: the items of a performed part cannot be read any more: %s: %s" % (label, type(e).__name__, e)]
+            if a != b:
+                name = [k for k in H_PART_KEYS if a[k] != b[k]][0]
+                return ["%s: the %s of a performed part are now %s; the edits so far add up to %s" % (label, name, a[name][:4], b[name][:4])]
+        if [id(x) for x in live["L"]] != [id(live["parts"][p]) for p in st["lst"]]:
+            return ["%s: the caller's list of parts holds %d parts, the edits so far add up to %d (or other objects)" % (label, len(live["L"]), len(st["lst"]))]
+        if st["perf"] is not None and [id(x) for x in live["perf"].performedparts] != [id(live["parts"][p]) for p in st["perf"]]:
+            return ["%s: the Performance holds %d parts; it was given / assigned %d (or holds other objects)" % (label, len(live["perf"].performedparts), len(st["perf"]))]
+        return []
+
+    def adopt_tracks(pids, before, label):
+        """after Performance(...) / sanitize_track_numbers: one number per (part, track), different pairs different numbers;
+        the abstract state takes over the numbers"""
+        num = {}
+        for k, pid in enumerate(pids):
+            pp = live["parts"][pid]
+            for name, lst in (("notes", pp.notes), ("ctrls", pp.controls), ("progs", pp.programs)):
+                old = before[pid][name]
+                if len(old) != len(lst):
+                    return ["%s changed the number of %s of part %d" % (label, name, k)]
+                for t, y in zip(old, lst):
+                    num.setdefault((k, t), set()).add(int(y["track"]))
+        split = {str(g): sorted(v) for g, v in sorted(num.items()) if len(v) != 1}
+        if split:
+            return ["%s gave the notes / controls / programs of one (part, track) different track numbers: %s" % (label, split)]
+        vals = [min(v) for v in num.values()]
+        if len(set(vals)) != len(vals):
+            return ["%s gave two (part, track) pairs the same track number: %s" % (label, {str(g): min(v) for g, v in sorted(num.items())})]
+        for pid in pids:
+            pp = live["parts"][pid]
+            for name, lst in (("notes", pp.notes), ("ctrls", pp.controls), ("progs", pp.programs)):
+                for x, y in zip(st["parts"][pid][name], lst):
+                    x["track"] = int(y["track"])
+            fix_sigs(pid)
+        return []
+
+    def fix_sigs(pid):
+        part, pp = st["parts"][pid], live["parts"][pid]
+        if h_fix_sig_tracks(part):
+            for name, lst in (("keys", pp.key_signatures), ("tsigs", pp.time_signatures), ("metas", [m for m in pp.meta_other if m.get("type") != "end_of_track"])):
+                for x, y in zip(part[name], lst):
+                    y["track"] = x["track"]
+
+    def tracks_before(pids):
+        return {pid: {name: [x["track"] for x in st["parts"][pid][name]] for name in ("notes", "ctrls", "progs")} for pid in pids}
+
+    def write_file(fid):
+        f = live["files"][fid]
+        new = build_midi(st["files"][fid])
+        if f.get("mf") is None:
+            f["mf"] = new
+        else:  # the same MidiFile object, edited in place
+            f["mf"].tracks[:] = new.tracks
+            f["mf"].ticks_per_beat = new.ticks_per_beat
+            f["mf"].type = new.type
+        f["mf"].save(f["path"])
+
+    # ---- the initial state
+    init = case["init"]
+    for fid in sorted(init.get("files", {})):
+        st["files"][fid] = json.loads(json.dumps(init["files"][fid]))
+        st["files"][fid]["tracks"] = [[(d, tuple(s)) for d, s in tr] for tr in st["files"][fid]["tracks"]]
+        live["files"][fid] = dict(path=os.path.join(workdir, "h_%s.mid" % fid))
+        write_file(fid)
+    started = False
+    if init.get("from_midi"):
+        fm = init["from_midi"]
+        spec = dict(fm["spec"], tracks=[[(d, tuple(s)) for d, s in tr] for tr in fm["spec"]["tracks"]])
+        try:
+            if fm["via"] == "lp":
+                path = os.path.join(workdir, "h_init.mid")
+                build_midi(spec).save(path)
+                perf = partitura.load_performance(path, default_bpm=spec["bpm"], merge_tracks=spec["merge"])
+            else:
+                perf = load_performance_midi(build_midi(spec), default_bpm=spec["bpm"], merge_tracks=spec["merge"])
+            pps = [pp for pp in perf.performedparts if pp.notes]
+            if pps and len(pps) == len(perf.performedparts):
+                for pp in pps:  # the end_of_track events the loader lists among the other meta events are not items of the performance
+                    pp.meta_other[:] = [m for m in pp.meta_other if m.get("type") != "end_of_track"]
+                for part, pp in zip(perf_to_parts(pps), pps):
+                    part["num"] = "py"
+                    pid = new_part(part, pp)
+                    st["lst"].append(pid)
+                    fix_sigs(pid)
+                live["L"] = list(perf.performedparts)
+                live["perf"], st["perf"] = perf, list(st["lst"])
+                started = True
+        except Exception as e:
+            return ["loading the initial file raised %s: %s" % (type(e).__name__, e)], info
+    if not started:
+        for part in init["parts"]:
+            st["lst"].append(new_part(part))
+        live["L"] = [live["parts"][p] for p in st["lst"]]
+        if init.get("wrap"):
+            before = tracks_before(st["lst"])
+            try:
+                live["perf"] = P.Performance(live["L"])
+            except Exception as e:
+                return ["Performance(...) raised %s: %s" % (type(e).__name__, e)], info
+            st["perf"] = list(st["lst"])
+            bad = adopt_tracks(st["perf"], before, "Performance(...)")
+            if bad:
+                return bad, info
+    bad = check_state("initial state")
+    if bad:
+        return bad, info
+    if coq is not None:
+        info["init_term"] = None  # the machine starts empty: the initial state is its first steps
+    coq_sync()
+
+    def fresh_arg(via, pids):
+        fps = [h_build(st["parts"][p]) for p in pids]
+        if via == "perf":
+            return P.Performance(fps, ensure_unique_tracks=False), fps
+        if via == "part":
+            return fps[0], fps
+        return fps, fps
+
+    def saved(arg, op, name):
+        if op["out"] == "none":
+            return save_performance_midi(arg, None, mpq=op["mpq"], ppq=op["ppq"], merge_tracks_save=op["ms"])
+        if op["out"] == "buf":
+            buf = io.BytesIO()
+            r = save_performance_midi(arg, buf, mpq=op["mpq"], ppq=op["ppq"], merge_tracks_save=op["ms"])
+            buf.seek(0)
+            mf = mido.MidiFile(file=buf)
+        else:
+            path = os.path.join(workdir, name)
+            r = save_performance_midi(arg, path, mpq=op["mpq"], ppq=op["ppq"], merge_tracks_save=op["ms"])
+            mf = mido.MidiFile(path)
+        if r is not None:
+            raise ValueError("save_performance_midi(out=<file>) returned %r instead of None" % (r,))
+        return mf
+
+    def do_save(op, label):
+        via = op["via"]
+        if via == "perf" and st["perf"] is None:
+            via = "lst"
+        if via == "perf":
+            pids, arg = list(st["perf"]), live["perf"]
+        elif via == "part":
+            allp = pids_in_views()
+            pids = [allp[op["k"] % len(allp)]]
+            arg = live["parts"][pids[0]]
+        else:
+            pids, arg = list(st["lst"]), live["L"]
+        if not pids:
+            return []
+        coq_sync()
+        ref = None
+        try:
+            if op.get("fresh_first"):
+                ref = h_canon_mf(saved(fresh_arg(via, pids)[0], op, "h_fresh.mid"))
+            mf = saved(arg, op, "h_live.mid")
+            got = h_canon_mf(mf)
+            fa, fps = fresh_arg(via, pids)
+            if ref is None:
+                ref = h_canon_mf(saved(fa, op, "h_fresh.mid"))
+        except Exception as e:
+            return ["%s raised %s: %s" % (label, type(e).__name__, e)]
+        info["saves"] += 1
+        if edited["export"]:
+            info["saves_after_edit"] += 1
+        d = h_diff_mf(got, ref)
+        if d:
+            return ["%s differs from the same call on freshly built parts holding the current state: %s" % (label, d)]
+        # by the property's words, when the current state is inside C06's proviso
+        snap = dict(ppq=op["ppq"], mpq=op["mpq"], kind="list", ms=op["ms"], ml=False, parts=[json.loads(json.dumps(st["parts"][p])) for p in pids])
+        c2 = json.loads(json.dumps(snap))
+        if make_exclusive(c2) and c2 == snap:
+            try:
+                obs = observe_perf(load_performance_midi(mf, merge_tracks=False))
+            except Exception as e:
+                return ["%s: loading the saved file raised %s: %s" % (label, type(e).__name__, e)]
+            tmap = {(x["track"],): x["track"] for part in snap["parts"] for name in ("notes", "ctrls", "progs") for x in part[name]}
+            if op["ms"]:
+                tmap = {0: 0}
+            b = oracle_roundtrip(snap, obs, tmap)
+            if b:
+                return ["%s, judged against the current state: %s" % (label, x) for x in b[:3]]
+            info["saves_abs"] += 1
+            if coq is not None:
+                view = "VPerf" if via == "perf" else "VList" if via == "lst" else "(VPart %d%%nat)" % int(pids[0])
+                info["hops"].append("(HSave (mkHA %s %s %s %s))" % (view, cz(op["ppq"]), cz(op["mpq"]), cbool(op["ms"])))
+                info["obs"].append(clist([c_track(t, coq) for t in mf.tracks]))
+        if op["out"] == "none":
+            live["mf"] = mf
+        return []
+
+    def q_items(part):
+        return [x for name in ("ctrls", "progs", "keys", "tsigs", "metas") for x in part[name]]
+
+    def live_items(pp):
+        return list(pp.controls) + list(pp.programs) + list(pp.key_signatures) + list(pp.time_signatures) + [m for m in pp.meta_other if m.get("type") != "end_of_track"]
+
+    def kinds(num):
+        FT = {"py": float, "f4": np.float32, "f8": np.float64, "int": int, "i4": lambda v: np.int32(int(v)), "i8": lambda v: np.int64(int(v))}[num]
+        IT = {"py": int, "f4": np.int32, "f8": np.int64, "int": int, "i4": np.int32, "i8": np.int64}[num]
+        return FT, IT
+
+    def set_times(n_live, on, off, FT):
+        if off >= float(n_live["note_off"]):
+            n_live["note_off"] = FT(off)
+            n_live["note_on"] = FT(on)
+        else:
+            n_live["note_on"] = FT(on)
+            n_live["note_off"] = FT(off)
+
+    def do_edit(op):
+        allp = pids_in_views()
+        if not allp:
+            return []
+        pid = allp[op["k"] % len(allp)]
+        part, pp = st["parts"][pid], live["parts"][pid]
+        num = part.get("num", "py")
+        FT, IT = kinds(num)
+        what, i = op["what"], op["i"]
+        whole = num in ("int", "i4", "i8")
+        if what == "shift":
+            d = float(int(op["d"]) or 1) if whole else op["d"]
+            for n, y in zip(part["notes"], pp.notes):
+                n["note_on"], n["note_off"] = h_q(n["note_on"] + d, num), h_q(n["note_off"] + d, num)
+                n["note_off"] = max(n["note_on"], n["note_off"])
+                set_times(y, n["note_on"], n["note_off"], FT)
+            for x, y in zip(q_items(part), live_items(pp)):
+                x["time"] = h_q(x["time"] + d, num)
+                y["time"] = FT(x["time"])
+        elif what in ("times", "velocity", "channel", "track", "pitch", "del_note"):
+            n, y = part["notes"][i % len(part["notes"])], pp.notes[i % len(part["notes"])]
+            if what == "times":
+                n["note_on"] = h_q(op["on"], num)
+                n["note_off"] = max(n["note_on"], h_q(op["on"] + op["len"], num))
+                set_times(y, n["note_on"], n["note_off"], FT)
+            elif what in ("velocity", "channel", "track"):
+                n[what] = op["v"]
+                y[what] = IT(op["v"])  # PerformedNote.__setitem__
+                if what == "track":
+                    fix_sigs(pid)
+            elif what == "pitch":  # the note's dictionary itself: PerformedNote accepts "pitch" only, the exporter reads "midi_pitch"
+                n["midi_pitch"] = op["v"]
+                y.pnote_dict["midi_pitch"] = IT(op["v"])
+                y.pnote_dict["pitch"] = IT(op["v"])
+            elif len(part["notes"]) >= 2:
+                del part["notes"][i % len(part["notes"])]
+                del pp.notes[i % len(pp.notes)]
+                fix_sigs(pid)
+        elif what == "add_note":
+            n = dict(op["note"])
+            n["note_on"], n["note_off"] = h_q(n["note_on"], num), h_q(n["note_off"], num)
+            part["notes"].append(n)
+            pp.notes.append(P.PerformedNote(dict({k: (FT(v) if k in ("note_on", "note_off") else IT(v)) for k, v in n.items()}, id="h%d" % len(part["notes"]))))
+        elif what in ("ctrl_value", "ctrl_time", "ctrl_track", "del_ctrl"):
+            if part["ctrls"]:
+                j = i % len(part["ctrls"])
+                if what == "ctrl_value":
+                    part["ctrls"][j]["value"] = op["v"]
+                    pp.controls[j]["value"] = IT(op["v"])
+                elif what == "ctrl_time":
+                    part["ctrls"][j]["time"] = h_q(op["on"], num)
+                    pp.controls[j]["time"] = FT(part["ctrls"][j]["time"])
+                elif what == "ctrl_track":
+                    part["ctrls"][j]["track"] = op["v"]
+                    pp.controls[j]["track"] = IT(op["v"])
+                else:
+                    del part["ctrls"][j]
+                    del pp.controls[j]
+        elif what == "add_ctrl":
+            c = dict(op["ctrl"], time=h_q(op["ctrl"]["time"], num))
+            part["ctrls"].append(c)
+            pp.controls.append({k: (FT(v) if k == "time" else IT(v)) for k, v in c.items()})
+        elif what == "rebind_ctrls":
+            pp.controls = [dict(c) for c in pp.controls]  # the attribute gets a new list of new dictionaries
+        elif what == "add_prog":
+            c = dict(op["prog"], time=h_q(op["prog"]["time"], num))
+            part["progs"].append(c)
+            pp.programs.append({k: (FT(v) if k == "time" else IT(v)) for k, v in c.items()})
+        elif what == "clear_progs":
+            part["progs"] = []
+            if op.get("rebind"):
+                pp.programs = []
+            else:
+                del pp.programs[:]
+        elif what == "res":
+            part["ppq"], part["mpq"] = op["ppq"], op["mpq"]
+            pp.ppq, pp.mpq = op["ppq"], op["mpq"]
+        elif what == "ticks":  # tick annotations that do not fit the times (any more)
+            pq, mq = part.get("ppq", 480), part.get("mpq", 500000)
+            for n, y in zip(part["notes"], pp.notes):
+                a = rhe(F(10 ** 6) * pq * F(n["note_on"]) / mq) + op["off"]
+                b = max(a, rhe(F(10 ** 6) * pq * F(n["note_off"]) / mq) + op["off"])
+                n["note_on_tick"], n["note_off_tick"] = a, b
+                y["note_on_tick"] = a
+                y["note_off_tick"] = b
+            for x, y in zip(q_items(part), live_items(pp)):
+                x["time_tick"] = rhe(F(10 ** 6) * pq * F(x["time"]) / mq) + op["off"]
+                y["time_tick"] = x["time_tick"]
+        edited["export"] = True
+        return []
+
+    def do_load(op, label):
+        fid = op["fid"]
+        spec = dict(st["files"][fid], bpm=op["bpm"])
+        f = live["files"][fid]
+        kw = dict(default_bpm=op["bpm"], merge_tracks=spec["merge"])
+
+        def call(src_obj, src_path):
+            if op["via"] == "obj":
+                return load_performance_midi(src_obj, **kw)
+            if op["via"] == "path":
+                return load_performance_midi(src_path, **kw)
+            return partitura.load_performance(src_path, **kw)
+
+        def fresh():
+            new = build_midi(spec)
+            path = os.path.join(workdir, "h_fresh_in.mid")
+            if op["via"] != "obj":
+                new.save(path)
+            return observe_perf(call(new, path))
+
+        try:
+            ref = fresh() if op.get("fresh_first") else None
+            perf = call(f["mf"], f["path"])
+            obs = observe_perf(perf)
+            if ref is None:
+                ref = fresh()
+        except Exception as e:
+            return ["%s raised %s: %s" % (label, type(e).__name__, e)]
+        info["loads"] += 1
+        if fid in edited["files"]:
+            info["loads_after_edit"] += 1
+        b = oracle_midi(spec, obs)
+        if b:
+            return ["%s, judged against the current content of the file: %s" % (label, x) for x in b[:3]]
+        if obs != ref:
+            return ["%s differs from the same call on a freshly built file with the current content" % label]
+        if h_canon_mf(f["mf"]) != h_canon_mf(build_midi(spec)):
+            return ["%s changed the MidiFile object it was given" % label]
+        live["res"] = perf
+        return []
+
+    def do_file_edit(op):
+        fid = op["fid"]
+        spec = st["files"][fid]
+        how = op["how"]
+        if how == "replace":
+            spec = json.loads(json.dumps(op["spec"]))
+            spec["tracks"] = [[(d, tuple(s)) for d, s in tr] for tr in spec["tracks"]]
+            st["files"][fid] = spec
+        elif how == "ppq":
+            spec["ppq"] = op["v"]
+        elif how == "tempo":
+            pos = [(a, b) for a, tr in enumerate(spec["tracks"]) for b, (d, s) in enumerate(tr) if s[0] == "tempo"]
+            if pos:
+                a, b = pos[op["j"] % len(pos)]
+                spec["tracks"][a][b] = (spec["tracks"][a][b][0], ("tempo", op["v"]))
+            else:
+                tr = spec["tracks"][op["i"] % len(spec["tracks"])]
+                tr.insert(min(op["j"], len(tr)) if tr and tr[-1][1][0] != "eot" else 0, (rng_free_delta(op["j"]), ("tempo", op["v"])))
+        elif how == "drop":
+            pos = [(a, b) for a, tr in enumerate(spec["tracks"]) for b, (d, s) in enumerate(tr) if s[0] in ("cc", "pc", "tempo", "text", "key", "tsig", "bend")]
+            if pos:
+                a, b = pos[op["j"] % len(pos)]
+                d0 = spec["tracks"][a][b][0]
+                del spec["tracks"][a][b]
+                if b < len(spec["tracks"][a]):  # the later events keep their ticks
+                    d1, s1 = spec["tracks"][a][b]
+                    spec["tracks"][a][b] = (d1 + d0, s1)
+        write_file(fid)
+        edited["files"].add(fid)
+        return []
+
+    def rng_free_delta(j):
+        return [0, 1, 60, 240][j % 4]
+
+    def do_result_edit():
+        perf = live["res"]
+        if perf is None:
+            return
+        try:
+            for pp in perf.performedparts:
+                for n in pp.notes:
+                    n["note_off"] = n["note_off"] + 1.5
+                    n["velocity"] = 1
+                for c in pp.controls + pp.programs:
+                    c["time"] = c["time"] + 2.0
+                    c["track"] = 9
+                pp.controls.append(dict(number=64, value=127, time=0.0, channel=0, track=0))
+                del pp.notes[:1]
+            del perf.performedparts[1:]
+        except Exception:
+            pass
+
+    for si, op in enumerate(case["ops"]):
+        kind = op["op"]
+        label = "step %d" % si
+        info["steps"] += 1
+        bad = []
+        try:
+            if kind == "save":
+                bad = do_save(op, "step %d: save_performance_midi(%s, ppq=%d, mpq=%d, merge_tracks_save=%s)" % (si, op["via"], op["ppq"], op["mpq"], op["ms"]))
+            elif kind == "edit":
+                bad = do_edit(op)
+            elif kind == "wrap":
+                if live["L"]:
+                    before = tracks_before(st["lst"])
+                    live["perf"] = P.Performance(live["L"][0] if op.get("single") and len(live["L"]) == 1 else live["L"])
+                    st["perf"] = list(st["lst"])
+                    bad = adopt_tracks(st["perf"], before, "step %d: Performance(...)" % si)
+                    edited["export"] = True
+            elif kind == "sanitize":
+                if st["perf"]:
+                    before = tracks_before(st["perf"])
+                    live["perf"].sanitize_track_numbers()
+                    bad = adopt_tracks(st["perf"], before, "step %d: sanitize_track_numbers()" % si)
+                    edited["export"] = True
+            elif kind == "setitem":
+                if st["perf"]:
+                    pid = new_part(op["part"])
+                    live["perf"][op["i"] % len(st["perf"])] = live["parts"][pid]
+                    st["perf"][op["i"] % len(st["perf"])] = pid
+                    edited["export"] = True
+            elif kind == "list_edit":
+                how = op["how"]
+                if how == "pop":
+                    if len(st["lst"]) > 1:
+                        st["lst"].pop()
+                        live["L"].pop()
+                else:
+                    pid = new_part(op["part"])
+                    if how == "append" or not st["lst"]:
+                        st["lst"].append(pid)
+                        live["L"].append(live["parts"][pid])
+                    else:
+                        st["lst"][op["i"] % len(st["lst"])] = pid
+                        live["L"][op["i"] % len(live["L"])] = live["parts"][pid]
+                edited["export"] = True
+            elif kind == "scribble_mf":
+                mf = live["mf"]
+                if mf is not None:
+                    for tr in mf.tracks:
+                        for m in tr[:2]:
+                            m.time += 7
+                        tr.append(mido.Message("note_on", note=1, velocity=1, time=3))
+                    mf.ticks_per_beat += 1
+                    live["mf"] = None
+            elif kind == "note_array":
+                allp = pids_in_views()
+                if allp:
+                    try:
+                        na = live["parts"][allp[op["k"] % len(allp)]].note_array()
+                        if len(na):
+                            na["onset_sec"] += 1.0  # the returned array belongs to the caller
+                    except Exception:
+                        pass
+            elif kind == "load":
+                if op["fid"] in st["files"]:
+                    bad = do_load(op, "step %d: load (%s, default_bpm=%s)" % (si, op["via"], op["bpm"]))
+            elif kind == "file_edit":
+                if op["fid"] in st["files"]:
+                    bad = do_file_edit(op)
+            elif kind == "result_edit":
+                do_result_edit()
+            elif kind == "conv":
+                bad = ["step %d: %s" % (si, x) for x in h_conv_check(op)]
+                info["convs"] += 1
+        except Exception as e:
+            bad = ["step %d (%s) raised %s: %s" % (si, kind, type(e).__name__, e)]
+        if not bad:
+            bad = check_state("after step %d (%s)" % (si, kind if kind != "edit" else "edit " + op["what"]))
+        if bad:
+            return bad, info
+    return [], info
+
+
+def h_sig(msg):
+    return re.sub(r"step \d+", "step", msg)[:60]
+
+
+def h_shrink(case, workdir, sig):
+    def fails_with(c):
+        try:
+            b, _ = h_run(json.loads(json.dumps(c)), workdir)
+        except Exception:
+            return False
+        return bool(b) and h_sig(b[0]) == sig
+
+    c = json.loads(json.dumps(case))
+    if len(c["ops"]) >= 2:
+        c["ops"] = core.ddmin(c["ops"], lambda sub: fails_with(dict(c, ops=sub)))
+    if c["init"].get("from_midi") and fails_with(dict(c, init={k: v for k, v in c["init"].items() if k != "from_midi"})):
+        del c["init"]["from_midi"]
+    if len(c["init"]["parts"]) >= 2 and not c["init"].get("from_midi"):
+        c["init"]["parts"] = core.ddmin(c["init"]["parts"], lambda sub: bool(sub) and fails_with(dict(c, init=dict(c["init"], parts=sub))))
+    for pi in range(len(c["init"]["parts"])):
+        for key in ("metas", "keys", "tsigs", "progs", "ctrls"):
+            if c["init"]["parts"][pi][key]:
+                d = json.loads(json.dumps(c))
+                d["init"]["parts"][pi][key] = []
+                if fails_with(d):
+                    c = d
+    used = {op.get("fid") for op in c["ops"]}
+    for fid in list(c["init"].get("files", {})):
+        if fid not in used:
+            d = json.loads(json.dumps(c))
+            del d["init"]["files"][fid]
+            if fails_with(d):
+                c = d
+    return c
+
+
+def h_term(info):
+    return ctuple([clist(info["hops"]), clist(info["obs"])])
+
+
+def corpus_hist():
+    def N(p, a, b, ch=0, tr=0, v=64):
+        return dict(midi_pitch=p, note_on=a, note_off=b, velocity=v, channel=ch, track=tr)
+
+    p0 = dict(num="py", notes=[N(60, 0.0, 1.0), N(62, 1.0, 2.0)], ctrls=[dict(number=64, value=127, time=0.25, channel=0, track=0)], progs=[], keys=[], tsigs=[], metas=[])
+    p1 = dict(num="py", notes=[N(70, 0.5, 0.5, ch=3)], ctrls=[], progs=[dict(program=5, time=0.0, channel=3, track=0)], keys=[], tsigs=[], metas=[])
+    p2 = dict(num="i4", notes=[N(80, 3.0, 5.0, ch=1, tr=1)], ctrls=[dict(number=7, value=3, time=2.0, channel=1, track=1)], progs=[], keys=[], tsigs=[], metas=[])
+    S = lambda via, ppq=480, mpq=500000, **kw: dict(dict(op="save", via=via, k=0, ppq=ppq, mpq=mpq, ms=False, out="none", fresh_first=False), **kw)
+    f0 = dict(ppq=480, merge=False, bpm=120, tracks=[[(0, ("tempo", 600000)), (0, ("on", 0, 60, 64)), (480, ("off", 0, 60, 0))]])
+    return [
+        # save, edit, save again; another resolution with the same ppq; a scribbled result
+        dict(flavour="export", init=dict(parts=[p0, p1], wrap=True, files={}),
+             ops=[S("perf"), dict(op="edit", k=0, i=0, what="shift", d=1.0), S("perf"), dict(op="scribble_mf"), S("perf", mpq=250000), S("part"), S("lst", ms=True)]),
+        # the caller's list after Performance(list); perf[i] = part; renumbering again
+        dict(flavour="export", init=dict(parts=[p0, p1], wrap=True, files={}),
+             ops=[S("perf"), dict(op="list_edit", how="append", i=0, part=p2), S("perf"), S("lst"), dict(op="setitem", i=0, part=p2), S("perf"), dict(op="sanitize"), S("perf"),
+                  dict(op="edit", k=0, i=0, what="add_prog", prog=dict(program=9, time=0.0, channel=0, track=0)), S("lst"), dict(op="edit", k=0, i=0, what="clear_progs", rebind=False), S("lst")]),
+        # integer seconds; a file edited in place between two loads
+        dict(flavour="import", init=dict(parts=[p2], wrap=False, files=dict(A=f0)),
+             ops=[S("lst", ppq=960, mpq=1000000), dict(op="load", fid="A", bpm=120, via="obj", fresh_first=False), dict(op="result_edit"),
+                  dict(op="load", fid="A", bpm=100, via="path", fresh_first=True), dict(op="file_edit", fid="A", how="tempo", i=0, j=0, v=250000),
+                  dict(op="load", fid="A", bpm=100, via="path", fresh_first=False), dict(op="load", fid="A", bpm=120, via="lp", fresh_first=False),
+                  dict(op="conv", f="s2t", kind="zero_d", t=0.5, ppq=480, mpq=500000), dict(op="conv", f="t2s", kind="empty", k=3, ppq=480, mpq=250000)]),
+    ]
+
+
+# ----------------------------------------------------------------------------
 
 
 def corpus_perf():
@@ -1318,8 +2235,14 @@ def run(ctx):
                 "(d) Performance(...) of 1-4 parts with shared / non-contiguous / missing track numbers, half of them wrapped twice.  (e) load_performance on a "
                 "file against load_performance_midi with the same options, 60% with first_note_at_zero (70% of these with a lead-in).  (f) seconds_to_midi_ticks, "
                 "midi_ticks_to_seconds (Python / numpy scalars and arrays, single and double precision) and adjust_time on tick-ordered tempo lists, called directly.  "
+                "(h) histories (state carried between calls): live parts (times as Python / numpy floats or whole seconds in Python / numpy integers), the caller's list, "
+                "Performance(list), two MIDI files (object + path) driven through 5-13 steps -- save through the Performance / the list / one part with any (ppq, mpq), "
+                "edits through the public fields (times, velocity, channel, track, notes / controls / programs added, deleted, rebound, ppq / mpq, stale ticks), "
+                "Performance(...) again, sanitize_track_numbers(), perf[i] = part, edits of the caller's list, writing into returned MidiFile / Performance / arrays, "
+                "load (object / path / load_performance), the same file object and path edited in place, conversion calls on scalars and 0-d / one-element / empty arrays; "
+                "every observation judged against the current state (property oracles + the same call on freshly built objects), 30% start from a loaded file.  "
                 "Non-trivial = (a) a case with >= 2 notes or a merge; (b) a file with a tempo change in a track other than the first "
-                "or >= 2 tempo changes; (d) >= 2 (part, track) pairs; (e) first_note_at_zero on >= 2 notes.")
+                "or >= 2 tempo changes; (d) >= 2 (part, track) pairs; (e) first_note_at_zero on >= 2 notes; (h) a history with a save / load after an edit.")
     ctx.trusted = ["Coq 8.16.1 kernel incl. vm_compute", "harness/props/c06.py (generators, mido message printer, Python oracles)", "mido 1.3 (MidiFile, merge_tracks, file reader/writer)"]
     ctx.assumptions = [
         "times whose exact tick position is within 2^-20 of .5 without being on it (or whose float evaluation is inexact at a tie) are not generated into compared cases (counted)",
@@ -1340,6 +2263,10 @@ def run(ctx):
         "first_note_at_zero: notes and programs of the first part move by its earliest onset (programs not below 0); a control at or after it keeps number, channel, "
         "track and moves along, its value is compared unless another control of its controller shares its time; additional controls only at time 0; other parts unchanged",
         "default_bpm values are those whose microseconds per quarter are a whole number",
+        "histories: the current state of a performed part is what its public fields say (notes' midi_pitch / note_on / note_off / velocity / channel / track, the dictionaries of "
+        "controls, programs, signatures, other meta events); of a Performance the parts it was given or assigned (not later changes of the caller's list); of a file its "
+        "current content; a call leaves its arguments as they are; signatures / meta events are kept on the track of a note of their part; end_of_track entries a loaded part "
+        "lists among its meta events are not items of the performance",
     ]
     ok, why = ctx.coq_props(expect_min=EXPECT_MIN)
     if not ok:
@@ -1548,6 +2475,55 @@ def run(ctx):
         ctx.obligation("correspondence: importmidi.adjust_time = Model.C06.adjust_time (1e-9) on %d tick-ordered tempo lists" % len(adj_terms), not failing2, failing2[:5])
         if (failing or failing2) and not bad:
             ctx.violation("model and implementation disagree on seconds_to_midi_ticks / midi_ticks_to_seconds / adjust_time", {"kind": "conv-model", "failing": (failing + failing2)[:5]}, no_input=True)
+    # ---- (h) histories: state carried between calls
+    n_h = 150 if quick else 1500
+    hist_terms, hist_cases = [], []
+    hcases = [(c, "corpus") for c in corpus_hist()] + [(HGen(rng).history(), "gen") for _ in range(n_h)]
+    n_hv = 0
+    for case, src in hcases:
+        try:
+            bad, info = h_run(json.loads(json.dumps(case)), ctx.work, coq=Intern())
+        except Exception as e:
+            import traceback
+            bad, info = ["the history runner raised %s: %s" % (type(e).__name__, traceback.format_exc()[-600:])], None
+        ctx.evaluations += 1
+        ctx.count("h:histories (%s)" % case["flavour"])
+        if bad:
+            if n_hv < 4:
+                small = case
+                try:
+                    small = h_shrink(case, ctx.work, h_sig(bad[0]))
+                except Exception:
+                    pass
+                b2, _ = h_run(json.loads(json.dumps(small)), ctx.work)
+                ctx.violation("C06 fails after a history of calls and edits (judged against the current state): " + "; ".join((b2 or bad)[:2]),
+                              {"kind": "history", "case": small, "failures": (b2 or bad)[:4]})
+            n_hv += 1
+            continue
+        for k in ("steps", "saves", "saves_abs", "saves_after_edit", "loads", "loads_after_edit", "convs"):
+            ctx.count("h:" + {"steps": "steps", "saves": "saves compared with a fresh copy of the current state", "saves_abs": "saves also judged by the property's words (current state inside the proviso)",
+                              "saves_after_edit": "saves after an edit / replaced part / renumbering", "loads": "loads judged against the file's current content",
+                              "loads_after_edit": "loads after the file was edited in place", "convs": "conversion calls (scalar kinds, 0-d / one-element / empty arrays)"}[k], info[k])
+        for num in sorted(info["nums"]):
+            ctx.count("h:parts with %s times" % num)
+        if case["init"].get("from_midi"):
+            ctx.count("h:histories starting from a loaded file")
+        if info["saves_after_edit"] or info["loads_after_edit"]:
+            ctx.nontrivial("h" + json.dumps(case, sort_keys=True))
+        if src == "gen" and sum(1 for x in ctx.samples if "history" in x) < 1:
+            ctx.sample({"history": case})
+        if info["obs"]:
+            hist_terms.append(h_term(info))
+            hist_cases.append(case)
+    if ok and hist_terms:
+        imports3 = "From PV Require Import Lib.Base Model.C06 Model.C06_hist."
+        failing = ctx.coq_failing("hist", imports3, pv_ty("(list hop * list (list (list (Z * msg))))%type"), typed(hist_terms), "check_hist", shard=shard_for(len(hist_terms), 40))
+        ctx.obligation("correspondence: the state machine Model.C06_hist (parts by identity, the caller's list, the Performance; edits; saves) run on the edits of %d histories "
+                       "gives, at every compared save, frames whose Model.C06.save matches the messages save_performance_midi wrote at that point of the live history "
+                       "(check_save on the machine's current state)" % len(hist_terms), not failing, failing[:5])
+        for i in failing[:2]:
+            ctx.violation("model and implementation disagree on a save inside a history (the machine's current state against the live objects)", {"kind": "history", "case": hist_cases[i]})
+    ctx.log("(h) done: %d histories" % len(hcases))
     if not ok and not ctx.violations:
         ctx.violation("proof obligations of Props/C06.v no longer check: " + why, {"theorem_or_build": why}, no_input=True)
 
@@ -1650,6 +2626,12 @@ def replay(obj):
         with tempfile.TemporaryDirectory() as tmp:
             bad, extra = run_dispatch_case(case, tmp)
         print("notes / programs of the first part before and after:", extra)
+        print("oracle:", bad or "holds")
+    elif kind == "history":
+        import tempfile
+        with tempfile.TemporaryDirectory() as tmp:
+            bad, info = h_run(json.loads(json.dumps(r["case"])), tmp)
+        print("steps run: %d, saves %d (%d by the property's words), loads %d" % (info["steps"], info["saves"], info["saves_abs"], info["loads"]))
         print("oracle:", bad or "holds")
     elif kind in ("conv", "adjust"):
         import numpy as np
